@@ -9,13 +9,18 @@ CONSTANTS
   MsV = {}
   CdV = {}
   StV = {0, 1}
+  LogV = {}
+  RefV = {}
+  SuiV = {}
   MaxOps = 6
   MaxDepth = 3
   MaxCommits = 2
-  Export = "none"
+  Export = "all"
 VIEW View
 INVARIANT ReadsArePlainMap
 INVARIANT StageIsCanonical
+INVARIANT SideIsPlainJournal
 INVARIANT ContentsWellFormed
 INVARIANT ReopenReadsBack
+INVARIANT ExportAll
 CHECK_DEADLOCK FALSE
